@@ -11,6 +11,7 @@ import (
 	"github.com/gobwas/ws"
 	"github.com/gobwas/ws/wsflate"
 
+	"verifharness/drive"
 	"verifharness/mon"
 	"verifharness/pyoracle"
 	"verifharness/xport"
@@ -175,7 +176,13 @@ func libraryDecompress(c *mon.C, comp []byte, plan xport.Plan, byteReader bool, 
 	if byteReader {
 		src = xport.ByteChunker{Chunker: ch}
 	} else {
-		src = ch
+		// plain, buffered (itself a byte reader), part-consumed buffered, Read-only, all at once
+		switch k := (len(comp) + buf) % 6; k {
+		case 5:
+			src = bytes.NewReader(comp)
+		default:
+			src = drive.WrapSource(ch, drive.Wraps[k])
+		}
 	}
 	var r *wsflate.Reader
 	if len(reuse) > 0 && reuse[0] != nil {
@@ -617,9 +624,9 @@ func subTailLogic() mon.Sub {
 // With resettable it keeps its identity across Writer.Reset (Reset(io.Writer) is called);
 // otherwise the Writer's constructor builds a new one per Reset.
 type scriptedCompressor struct {
-	w        io.Writer
-	script   *tailScript
-	suffix   []byte
+	w      io.Writer
+	script *tailScript
+	suffix []byte
 }
 
 type tailScript struct {
@@ -634,7 +641,7 @@ func (t *tailScript) take() []byte {
 }
 
 func (f *scriptedCompressor) Write(p []byte) (int, error) { return f.w.Write(p) }
-func (f *scriptedCompressor) Flush() error               { _, err := f.w.Write(f.suffix); return err }
+func (f *scriptedCompressor) Flush() error                { _, err := f.w.Write(f.suffix); return err }
 
 type scriptedResettable struct{ scriptedCompressor }
 
